@@ -14,3 +14,6 @@ import EmuVerif.Props.C05
 #print axioms EmuVerif.Props.C05.updateH_shape
 #print axioms EmuVerif.Props.C05.rydberg_mpo_eq_dense_matrix
 #print axioms EmuVerif.Props.C05.xy_mpo_eq_dense_matrix
+#print axioms EmuVerif.Props.C05.updateSeq_eq_rebuild
+#print axioms EmuVerif.Props.C05.mpo_eq_dense_after_update_seq
+#print axioms EmuVerif.Props.C05.mpo_eq_dense_after_zero_update
